@@ -8,6 +8,7 @@
   fail when a bound is widened or an `if (dest)` is dropped.
 -/
 import MptModel.Impl.Convert
+set_option linter.unusedSimpArgs false
 namespace Mpt.Conv
 open Mpt.Scalar Mpt.Flt
 
